@@ -668,6 +668,9 @@ reprocess:
 			{
 			char *arg_string;
 			arg_string = va_arg(ap, char *);
+			if (location >= max_len) {
+				return max_len;
+			}
 			if (arg_string == NULL) {
 				location += my_strlcpy(&serialize[location],
 						   "(null)",
